@@ -311,7 +311,81 @@ fn entry_points() -> Vec<Ep> {
 
 const SYMS: [u8; 24] = [0, 1, 2, 3, 4, 5, 0x7F, 0x80, 0xFF, 0x0B, 0x11, 0x15, 0x1F, 0x21, 0x22, 0x23, 0x24, 0x26, 0x27, b'M', b'Q', b'T', b'#', 0xC0];
 
+/// Bodies longer than the largest Remaining Length (268 435 455): no frame can carry them, but the parsers are
+/// public entry points that take any slice. Scripted, not enumerated: one well-formed body of 268 435 456 bytes
+/// or a little more per parser whose input length is unbounded. The verdict is the totality clause only (error
+/// value or packet, no panic, consumed <= given).
+fn oversize_bodies(rep: &mut Report) {
+    const MAX_RL: usize = 268_435_455;
+    let thorough = rep.thorough();
+    let filters = |n: usize, with_opt: bool| -> Vec<u8> {
+        let mut v = Vec::with_capacity(n * 65538);
+        for _ in 0..n {
+            v.extend_from_slice(&[0xFF, 0xFF]);
+            v.resize(v.len() + 65535, b'f');
+            if with_opt {
+                v.push(0);
+            }
+        }
+        v
+    };
+    let mut cases: Vec<(String, Ver, u8, u8, Box<dyn Fn() -> Vec<u8>>)> = vec![];
+    cases.push(("v3.1.1 PUBLISH q0 body of 268435456 bytes".into(), Ver::V4, 3, 0, Box::new(|| { let mut b = vec![0, 1, b'a']; b.resize(MAX_RL + 1, 0x55); b })));
+    cases.push(("v5.0 PUBLISH q0 body of 268435456 bytes".into(), Ver::V5, 3, 0, Box::new(|| { let mut b = vec![0, 1, b'a', 0]; b.resize(MAX_RL + 1, 0x55); b })));
+    if thorough {
+        cases.push(("v3.1.1 SUBACK body of 268435456 bytes".into(), Ver::V4, 9, 0, Box::new(|| { let mut b = vec![0, 1]; b.resize(MAX_RL + 1, 0); b })));
+        cases.push(("v5.0 SUBACK body of 268435456 bytes".into(), Ver::V5, 9, 0, Box::new(|| { let mut b = vec![0, 1, 0]; b.resize(MAX_RL + 1, 0); b })));
+        cases.push(("v5.0 UNSUBACK body of 268435456 bytes".into(), Ver::V5, 11, 0, Box::new(|| { let mut b = vec![0, 1, 0]; b.resize(MAX_RL + 1, 0); b })));
+        cases.push(("v3.1.1 SUBSCRIBE with 4096 filters of 65535 bytes".into(), Ver::V4, 8, 2, Box::new(move || { let mut b = vec![0, 1]; b.extend(filters(4096, true)); b })));
+        cases.push(("v5.0 SUBSCRIBE with 4096 filters of 65535 bytes".into(), Ver::V5, 8, 2, Box::new(move || { let mut b = vec![0, 1, 0]; b.extend(filters(4096, true)); b })));
+        cases.push(("v3.1.1 UNSUBSCRIBE with 4097 filters of 65535 bytes".into(), Ver::V4, 10, 2, Box::new(move || { let mut b = vec![0, 1]; b.extend(filters(4097, false)); b })));
+        cases.push(("v5.0 UNSUBSCRIBE with 4097 filters of 65535 bytes".into(), Ver::V5, 10, 2, Box::new(move || { let mut b = vec![0, 1, 0]; b.extend(filters(4097, false)); b })));
+        // v5.0 acknowledgement whose property block has the largest expressible Property Length region:
+        // 3 + 4 + 268 435 452 bytes
+        for (name, ty, flags) in [("PUBACK", 4u8, 0u8), ("PUBREC", 5, 0), ("PUBREL", 6, 2), ("PUBCOMP", 7, 0)] {
+            cases.push((format!("v5.0 {name} with a property block of 268435452 bytes"), Ver::V5, ty, flags, Box::new(|| {
+                let mut b: Vec<u8> = vec![0, 1, 0];
+                b.extend_from_slice(&[0xFC, 0xFF, 0xFF, 0x7F]); // 268 435 452
+                for _ in 0..2047 {
+                    b.push(0x26);
+                    b.extend_from_slice(&[0xFF, 0xFF]);
+                    b.resize(b.len() + 65535, b'k');
+                    b.extend_from_slice(&[0xFF, 0xFF]);
+                    b.resize(b.len() + 65535, b'v');
+                }
+                b.push(0x26);
+                b.extend_from_slice(&[0, 1, b'k']);
+                let vlen = 268_435_452usize - 2047 * 131_075 - 6;
+                b.extend_from_slice(&[(vlen >> 8) as u8, (vlen & 0xff) as u8]);
+                b.resize(b.len() + vlen, b'v');
+                b
+            })));
+        }
+    }
+    let mut n = 0u64;
+    for (label, ver, ty, flags, mk) in cases {
+        n += 1;
+        let label2 = label.clone();
+        let r = guarded(move || -> Option<String> {
+            let body = mk();
+            assert!(body.len() > MAX_RL, "harness: body of {} bytes is not oversize", body.len());
+            match bridge::parse_body::<u16>(ver, ty, flags, &body) {
+                Some(Ok((_, consumed))) if consumed > body.len() => Some(format!("parser claims to have consumed {consumed} of {} bytes", body.len())),
+                _ => None,
+            }
+        });
+        match r {
+            Ok(None) => {}
+            Ok(Some(d)) => rep.violation(Violation { rule: "c04.consumed".into(), sig: format!("c04.consumed|oversize-body|{}", label2.split(" with ").next().unwrap_or("").split(" body").next().unwrap_or("")), detail: format!("[{label2}] {d}"), config: "c04 oversize bodies".into(), history: vec![json!(label2)] }),
+            Err(m) => rep.violation(Violation { rule: "c04.panic".into(), sig: format!("c04.panic|oversize-body|{}", label2.split(" with ").next().unwrap_or("").split(" body").next().unwrap_or("")), detail: format!("[{label2}] the parser panicked instead of returning an error value: {m}"), config: "c04 oversize bodies".into(), history: vec![json!(label2)] }),
+        }
+    }
+    rep.count("c04.oversize-bodies", n);
+    rep.floor("c04.oversize-bodies", 2);
+}
+
 pub fn run(rep: &mut Report) {
+    oversize_bodies(rep);
     let thorough = rep.thorough();
     let eps = entry_points();
     // (a) all byte strings up to length 3 (quick) / 4 (thorough, on the cheap non-PUBLISH parsers 3 on PUBLISH flag variants)
